@@ -365,6 +365,29 @@ class Reader:
             st.locals[lv[1]] = cur
 
     # -- statements ----------------------------------------------------
+    def _nested_breaks(self, node):
+        """`break` statements below a direct statement of a switch body that are not inside a loop of their own (those would leave the switch from a nested position)"""
+        out = []
+
+        def rec(n, top):
+            if not isinstance(n, dict):
+                return
+            k_ = n.get('k')
+            if k_ in ('For', 'While', 'Do', 'RangeFor', 'Switch'):
+                return
+            if k_ == 'Break' and not top:
+                out.append(n)
+            for key in ('b', 't', 'e'):
+                if isinstance(n.get(key), dict):
+                    rec(n[key], False)
+            for y_ in n.get('s', []) if isinstance(n.get('s'), list) else []:
+                rec(y_, False)
+        if isinstance(node, dict) and node.get('k') in ('Case', 'Default'):
+            rec(node.get('b'), True) if not (isinstance(node.get('b'), dict) and node['b'].get('k') == 'Break') else None
+        else:
+            rec(node, True)
+        return out
+
     def ex(self, s, st, ctx):
         if s is None or st.returned or getattr(st, 'continued', False):
             return [st]
@@ -372,6 +395,54 @@ class Reader:
         if k == 'Continue':
             st.continued = True
             return [st]
+        if k == 'Switch':
+            # switch (c) { case v: ...; break; ... default: ... }: one branch per label, with the comparison recorded as a path condition; a branch runs the statements from its label up to the next
+            # `break` (falling through later labels).  Only `break` as a direct statement of the switch body is modelled.
+            body = s['b']['s'] if isinstance(s.get('b'), dict) and s['b'].get('k') == 'Compound' else [s['b']] if s.get('b') else []
+            labels = [(i_, x_) for i_, x_ in enumerate(body) if isinstance(x_, dict) and x_.get('k') in ('Case', 'Default')]
+            if not labels or any(isinstance(y_, dict) and y_.get('k') == 'Break' for x_ in body for y_ in self._nested_breaks(x_)):
+                raise Unsupported('statement Switch at %s' % s.get('loc'))
+            out = []
+            for (cv_, s2) in self.ev(s['c'], st, ctx):
+                case_vals = []
+                for (i_, lab) in labels:
+                    if lab['k'] == 'Case':
+                        vs_ = self.ev(lab['v'], s2.copy(), ctx)
+                        if len(vs_) != 1 or not isinstance(vs_[0][0], sp.Basic) or not isinstance(cv_, sp.Basic):
+                            raise Unsupported('switch label at %s' % lab.get('loc'))
+                        case_vals.append((i_, lab, vs_[0][0]))
+
+                def run_from(i0, sx_):
+                    states = [sx_]
+                    for x_ in body[i0:]:
+                        if isinstance(x_, dict) and x_.get('k') == 'Break':
+                            break
+                        node = x_['b'] if isinstance(x_, dict) and x_.get('k') in ('Case', 'Default') else x_
+                        nxt = []
+                        for y_ in states:
+                            nxt += self.ex(node, y_, ctx)
+                        states = nxt
+                    return states
+                for (i_, lab, lv_) in case_vals:
+                    if isinstance(cv_, sp.Symbol) and isinstance(lv_, sp.Symbol) and cv_.name in ENUM_SYMBOLS and lv_.name in ENUM_SYMBOLS:
+                        rel = sp.true if cv_ == lv_ else sp.false              # two enumerators compare by identity
+                    else:
+                        rel = sp.Eq(cv_, lv_)
+                    truth = _truth(rel)
+                    if truth is False:
+                        continue
+                    a = s2.copy()
+                    a.cond.append(('%s == %s' % (pp(s['c']), pp(lab['v'])), rel, True, s['c']))
+                    out += run_from(i_, a)
+                    if truth is True:
+                        break
+                else:
+                    b = s2.copy()
+                    for (i_, lab, lv_) in case_vals:
+                        b.cond.append(('%s == %s' % (pp(s['c']), pp(lab['v'])), sp.Eq(cv_, lv_), False, s['c']))
+                    dflt = [i_ for (i_, lab) in labels if lab['k'] == 'Default']
+                    out += run_from(dflt[0], b) if dflt else [b]
+            return out
         if k == 'Compound':
             states = [st]
             for c in s['s']:
